@@ -26,7 +26,7 @@ STUBS = ["watched quantity of listener l = uninterpreted function g_l(instant); 
 ASSUMPTIONS = ["exact reals", "bisection: loop explored up to the unwinding bound; the invariant is checked on the first iteration from an "
                "arbitrary bracket (inductive step) and the exit condition on every explored exit"]
 OUTSIDE = ["coincidence with closed-form Keplerian node/apsis times and the 0.01 s / 0.5 s shadow timing (needs the orbit as a "
-           "function of time)", "LightListener geometry (not encoded in this round)", "termination count of the bisection under the "
+           "function of time)", "LightListener geometry (not encoded)", "termination count of the bisection under the "
            "real microsecond rounding (arithmetic: the width halves, 2^40 us > 12 days)"]
 
 
@@ -375,10 +375,74 @@ def stream_case():
                      "is in chronological order, starts with the first sample and contains every sample")
 
 
+def visibility_case():
+    """the real TopocentricFrame.visibility: of the stream coming from the propagator exactly the points above the horizon
+    (phi >= 0) and the station's own events (AOS/LOS/MAX, whatever their elevation) are passed on, each moved to the station
+    frame in spherical form; and calling it again with the *same* user-supplied listener list neither grows that list nor
+    doubles the station listeners handed to the propagator"""
+    ins = [("phi0", "real"), ("phi1", "real"), ("phi2", "real"), ("phie", "real")]
+
+    def run(env, v):
+        sta_mod = env.mod("beyond.frames.stations") if env.symbolic else importlib.import_module("beyond.frames.stations")
+        ls = importlib.import_module("beyond.propagators.listeners")
+
+        class Sta:
+            mask = None
+            name = "vfsta"
+            visibility = sta_mod.TopocentricFrame.visibility
+        sta = Sta()
+        handed = []
+
+        class P:
+            def __init__(self, phi, event=None):
+                self.phi, self.event, self.frame, self.form = phi, event, None, None
+
+        class Orb:
+            def iter(self, **kw):
+                handed.append(list(kw.get("listeners", [])))
+                sig = [l for l in kw.get("listeners", []) if isinstance(l, ls.StationSignalListener)]
+                ev = sig[0].event(sig[0], "AOS") if sig else None
+                return iter([P(v["phi0"]), P(v["phie"], ev), P(v["phi1"]), P(v["phi2"])])
+
+        class UserListener(ls.Listener):
+            def info(self, orb):
+                return None
+
+            def __call__(self, orb):
+                return 0
+        user = [UserListener()]
+        first = list(sta.visibility(Orb(), events=True, listeners=user))
+        n_user_1 = len(user)
+        second = list(sta.visibility(Orb(), events=True, listeners=user))
+        out = {}
+        for k, key in enumerate(("phi0", "phi1", "phi2")):
+            present = [p for p in first if p.phi is v[key]]
+            out[f"kept{k}"] = len(present)
+        evp = [p for p in first if p.event is not None]
+        lab = all(p.frame is sta and p.form == "spherical" for p in first)
+        out.update({"event_kept": len(evp), "moved_to_station_frame": Holds(SB(z3.BoolVal(bool(lab))) if env.symbolic else bool(lab)),
+                    "user_list_len_after_1": n_user_1, "user_list_len_after_2": len(user),
+                    "listeners_handed_1": len(handed[0]), "listeners_handed_2": len(handed[1]),
+                    "second_stream_len": len(second) - len(first)})
+        return out
+
+    def ref(env, v, out):
+        r = {}
+        for k, key in enumerate(("phi0", "phi1", "phi2")):
+            r[f"kept{k}"] = 1 if (v[key] >= 0) else 0
+        r.update({"event_kept": 1, "moved_to_station_frame": None, "user_list_len_after_1": 1, "user_list_len_after_2": 1,
+                  "listeners_handed_1": 3, "listeners_handed_2": 3, "second_stream_len": 0})
+        return r
+    return Case("visibility/filter", ins, run, ref, timeout=60, maxpaths=100, tol=0, abs_tol=0.5,
+                signature="TopocentricFrame.visibility grows the caller's listener list",
+                desc="station.visibility(events=True, listeners=L): keeps exactly the above-horizon points and the station's events, in "
+                     "the station frame / spherical form; L is left as given and a second call hands the propagator the same listeners")
+
+
 def all_cases(tier):
     b = bounds(tier)
     cs = [listen_case(n) for n in range(1, b["listeners"] + 1)]
-    cs += [bisect_case(b["bisect_decisions"]), bisect_step_case(), anomaly_case(), labels_case(), stream_case()]
+    cs += [bisect_case(b["bisect_decisions"]), bisect_step_case(), anomaly_case(), labels_case(), stream_case(), visibility_case()]
     return cs
 
 
@@ -391,6 +455,8 @@ def replay(ob, model):
     # the same scenario with a step function realising the model's signs
     rp = ob.get("replay") or {}
     name = rp.get("case", "")
+    if name.startswith("visibility"):
+        return replay_cases(all_cases("thorough"), ob, model)
     try:
         return _replay_concrete(name, rp.get("component"), model)
     except Exception as e:  # noqa
